@@ -23,13 +23,17 @@ func NewFilterQueryStringsMiddleware(logger logging.Logger, remote *config.Backe
 			return nil
 		}
 		nextProxy := next[0]
+		allowed := make(map[string]struct{}, len(remote.QueryStringsToPass))
+		for _, v := range remote.QueryStringsToPass {
+			allowed[v] = struct{}{}
+		}
 		return func(ctx context.Context, request *Request) (*Response, error) {
 			if len(request.Query) == 0 {
 				return nextProxy(ctx, request)
 			}
 			numQueryStringsToPass := 0
-			for _, v := range remote.QueryStringsToPass {
-				if _, ok := request.Query[v]; ok {
+			for k := range request.Query {
+				if _, ok := allowed[k]; ok {
 					numQueryStringsToPass++
 				}
 			}
